@@ -15,7 +15,7 @@ RULE_TEXT = "obligation = (rule, streaming combination / helper / kwarg); evalua
 
 
 def run(ctx) -> None:
-    ctx.rules_run += ["G1", "G2", "G3", "G4", "G5", "G7", "G6"]
+    ctx.rules_run += ["G1", "G2", "G3", "G4", "G5", "G7", "G6", "G10"]
     template.rule_G(ctx)
     template.rule_Y2iii(ctx, "G8")     # a stub method body must be able to run: names it uses are imported
     rule_G6(ctx, "G6")
